@@ -307,6 +307,20 @@ pub fn gen_program_x(rng: &mut Rng, nvars: usize, nops: usize, allow_newvar: boo
                     m[order[0]] = Some(rng.coin());
                 }
                 ops.push(Op::CondM(f, m));
+                // partial models over BOTH deep variables (and one of the chain): a node that
+                // ignores the variable handled first but tests the one handled next.  The choices
+                // are functions of values already drawn, so that the random stream (and with it
+                // every later case) is the same as before this family was added.
+                let (b1, b2, b3) = (k % 2 == 0, deep == z, f % 2 == 0);
+                let mut m2: Vec<Option<bool>> = vec![None; cur_vars];
+                m2[y] = Some(b1);
+                m2[z] = Some(b2);
+                ops.push(Op::CondM(f, m2.clone()));
+                if k > 1 {
+                    m2[order[1 + f % (k - 1)]] = Some(b3);
+                }
+                m2[y] = Some(!b1);
+                ops.push(Op::CondM(f, m2));
             }
             let other = pick_idx(rng, ops.len());
             ops.push(Op::Compose(f, deep, other));
